@@ -82,7 +82,7 @@ example : result (validate (some { exPlan with blocks := [{ groups := [], seqs :
 set_option maxRecDepth 100000 in
 /-- the code this property's model mirrors still has the shape the model was written against (control-flow
     skeletons regenerated from /repo on every run, Model/SkeletonsMore) -/
-theorem facts_model_skeleton : Generated.F12.validate = SkeletonsMore.validate := by decide +kernel
+theorem facts_model_skeleton : Generated.F12.validate = SkeletonsMore.validate := by rfl
 
 /-! ### translated code: the validate methods, regenerated from workflow.go on every run (Generated/T5.lean) -/
 
